@@ -225,9 +225,16 @@ def run_case(case):
     return compare_serial(drv, case, subs, obs, dmap)
 
 
+def _boundary_clash(times, spans):
+    edges = [x for a, b in spans for x in (a, b) if x is not None]
+    return any(abs(t - x) < 1e-6 for t in times for x in edges)
+
+
 def compare_callbacks(drv, exp, subs, obs):
     out = []
     for k, sub in sorted(subs.items()):
+        if _boundary_clash([t for (t, c, r, e) in exp], sub["spans"]):
+            continue      # a report issued at the very instant of a (un)subscription: order undefined, not judged
         want = []
         for (t, c, r, e) in exp:
             if any(a < t and (b is None or t < b) for a, b in sub["spans"]):
@@ -286,6 +293,8 @@ def compare_serial(drv, case, subs, obs, dmap):
             exp.append((t, cmd_fp(cmd)))
             dt = (value & 0xFF) if (bits == 16 and type(cmd).__name__ == "EnableDeviceType") else 0
     for k, sub in sorted(subs.items()):
+        if _boundary_clash([t for (t, c) in exp], sub["spans"]):
+            continue
         want = [c for (t, c) in exp if any(a < t and (b is None or t < b) for a, b in sub["spans"])]
         got = [c for (t, c, r, e) in sub["log"]]
         if got != want:
@@ -392,12 +401,12 @@ def case_strategy(draw, driver=None):
     # subscribers: some from the start, some joining / leaving at odd instants
     nsub = draw(st.integers(0, 3))
     for k in range(nsub):
-        t_in = draw(st.sampled_from([-0.01, -0.01, 0.0713, 0.4177, 0.9391]))
+        t_in = draw(st.sampled_from([-0.01, -0.01, 0.07131, 0.41773, 0.93917]))
         events.append({"t": t_in, "what": "call", "op": "sub", "id": k})
         if draw(st.integers(0, 2)) == 0:
-            events.append({"t": round(max(t_in, 0) + draw(st.sampled_from([0.1377, 0.5513, 1.2177, 2.0391])), 4), "what": "call", "op": "unsub", "id": k})
+            events.append({"t": round(max(t_in, 0) + draw(st.sampled_from([0.13771, 0.55133, 1.21777, 2.03911])), 5), "what": "call", "op": "unsub", "id": k})
             if draw(st.booleans()):
-                events.append({"t": round(max(t_in, 0) + 2.7713, 4), "what": "call", "op": "sub", "id": k})
+                events.append({"t": round(max(t_in, 0) + 2.77139, 5), "what": "call", "op": "sub", "id": k})
     case = {"driver": drv, "callers": callers, "inject": inject, "events": events, "lat": draw(st.lists(st.floats(0, 0.999), max_size=10)),
             "tie": True, "drain_virtual": 5.0, "horizon": round(t + 1.0, 3),
             "map": draw(st.sampled_from([[], [[1, 1, 1], [3, 3, 3]], [[1, 1, 4], [2, 4, 1], [3, 3, 1]]]))}
